@@ -192,7 +192,7 @@ PROPS = {
             'a NON-transfer performative whose encoding exceeds the frame is refused with FramingError since fix 542518b ([C06.transport.non-transfer-whole]); nothing establishes that the engines handle that error gracefully (the connection engine treats it as a transport error)',
             'decoding under arbitrary read fragmentation is tokio_util LengthDelimitedCodec + FramedRead (third party), not verified']),
     'C01': dict(
-        units=['FRAMEENC', 'SESSION', 'SENDSPLIT', 'LINK', 'REASM', 'SESSENG', 'CONNENG', 'RESUME', 'BYTEREADER', 'WIRING', 'ACCLINK', 'LINKAPI', 'READERS', 'ACCDELEG', 'TXNDELEG', 'SENDINNER', 'SESSWIRING'],
+        units=['FRAMEENC', 'SESSION', 'SENDSPLIT', 'LINK', 'REASM', 'SESSENG', 'CONNENG', 'RESUME', 'BYTEREADER', 'WIRING', 'ACCLINK', 'LINKAPI', 'READERS', 'ACCDELEG', 'TXNDELEG', 'SENDINNER', 'SESSWIRING', 'LINKFLOW'],
         lemmas={'SENDSPLIT': ['lemma_link_expected', 'lemma_link_mids'], 'FRAMEENC': ['lemma_expected_properties', 'lemma_mids_payload']}, kani=[], level='proof', title='End-to-end delivery (sequential stages only)',
         assumptions=[ASYNC, ENGINE,
             'only the sequential stages are under contract: session hold-back/stamping (SESSION) and frame splitting (FRAMEENC); link-level split, reassembly and the codec round trip are separate units where built',
@@ -236,7 +236,7 @@ PROPS = {
             'resumption (transfer.state = Received{..}, transfer.resume) may trim the buffer and is outside these contracts',
             'interleaving with other links of the session is the routing contract of unit SESSION (C11.route.transfer)']),
     'C18': dict(
-        units=['TXN', 'TXNCTRL', 'TXNCOORD', 'SENDSPLIT', 'FRAMEENC', 'SESSWIRING'], kani=[], level='proof', title='Transactions: listener-side resource table, controller-side wire content',
+        units=['TXN', 'TXNCTRL', 'TXNCOORD', 'SENDSPLIT', 'FRAMEENC', 'SESSWIRING', 'ACCSESS'], kani=[], level='proof', title='Transactions: listener-side resource table, controller-side wire content',
         assumptions=[ASYNC,
             'the wrapped plain session is a stand-in with a ghost `delivered` log; built as with features transaction+acceptor',
             'allocate_transaction_id: partial correctness only (the uuid retry loop has no termination argument)',
